@@ -559,6 +559,7 @@ func (c *coord) at(in ssa.Instruction) string {
 type decisionSite struct {
 	blk    *ssa.BasicBlock
 	assume *engine.Formula
+	val    ssa.Value // the value whose truth is assumed (for looking through a helper predicate)
 }
 
 // implies decides PC(site) ∧ assume ⇒ f.
@@ -566,7 +567,15 @@ func (d decisionSite) implies(fi *engine.FuncInfo, f *engine.Formula) (bool, []s
 	if d.assume == nil {
 		return fi.Implies(d.blk, f)
 	}
-	return fi.Implies(d.blk, engine.Or(engine.Not(d.assume), f))
+	ok, have := fi.Implies(d.blk, engine.Or(engine.Not(d.assume), f))
+	if !ok && d.val != nil {
+		// the assumed condition may be the call of a helper predicate: take its expansion
+		dfi := fi.Deep()
+		if ok2, have2 := dfi.Implies(d.blk, engine.Or(engine.Not(dfi.Cond(d.val)), f)); ok2 {
+			return true, have2
+		}
+	}
+	return ok, have
 }
 
 // decisionSites: where it is decided that the instruction runs. Normally its own block; when the instruction is
@@ -622,7 +631,7 @@ func phiTrueSites(fi *engine.FuncInfo, ph *ssa.Phi) []decisionSite {
 			case *ssa.Phi:
 				walk(x)
 			default:
-				out = append(out, decisionSite{blk: q.Block().Preds[i], assume: fi.Cond(e)})
+				out = append(out, decisionSite{blk: q.Block().Preds[i], assume: fi.Cond(e), val: e})
 			}
 		}
 	}
